@@ -62,11 +62,11 @@ def lean_obligations(cfg, log):
         r = sh([sys.executable, os.path.join(ROOT, "tools", "gen_consts.py")])
         log.append("gen_consts: " + (r.stdout or "").strip()[-2000:])
         gen_ok = r.returncode == 0
-        sh([sys.executable, os.path.join(ROOT, "tools", "gen_main.py")])
+        sh([sys.executable, os.path.join(ROOT, "tools", "gen_lake.py")])
         mods = cfg.get("lean_props", [f"Libp2pModel.Props.{pid}"])
         t0 = time.time()
         r1 = sh(["lake", "build"] + mods, cwd=LEAN, timeout=3600)
-        r2 = sh(["lake", "build", "modeldriver"], cwd=LEAN, timeout=3600)
+        r2 = sh(["lake", "build", "drv_" + pid], cwd=LEAN, timeout=3600)
         log.append(f"lake build {' '.join(mods)}: rc={r1.returncode} ({time.time()-t0:.1f}s)")
         # the axiom report: re-elaborate the property module(s) so `#print axioms` output is from THIS run
         axioms = {}
@@ -150,9 +150,9 @@ def run_pair(cfg, seed, tier, outdir, tag, count=None, replay=None, timeout=None
         if r.returncode != 0:
             return None, None, f"harness exited {r.returncode}: {(r.stderr or '')[-1500:]}"
         with open(hpath) as fin, open(dpath, "w") as f:
-            r = sh([os.path.join(LEAN, ".lake", "build", "bin", "modeldriver"), pid], stdin=fin, stdout=f, timeout=to)
+            r = sh([os.path.join(LEAN, ".lake", "build", "bin", "drv_" + pid)], stdin=fin, stdout=f, timeout=to)
         if r.returncode != 0:
-            return None, None, f"modeldriver exited {r.returncode}: {(r.stderr or '')[-1500:]}"
+            return None, None, f"model driver exited {r.returncode}: {(r.stderr or '')[-1500:]}"
     except subprocess.TimeoutExpired:
         return None, None, f"timeout after {to}s"
     return open(hpath).read().splitlines(), open(dpath).read().splitlines(), None
@@ -347,7 +347,7 @@ def main():
     if not hb_ok:
         run_err = "harness does not build against /repo's working tree:\n" + hb_log[-3000:]
     elif not ob["driver_ok"]:
-        run_err = "modeldriver does not build:\n" + ob["build_log"]
+        run_err = "model driver does not build:\n" + ob["build_log"]
     else:
         runs = []
         if a.replay:
